@@ -11,7 +11,8 @@
 //!       item = e<wire>,<canonical> | b<wire> (element decoder rejects it) | n (CBOR null)
 //!       op   = a<elem> | a<wire>,<elem> (add an element decoded from <wire>, another spelling of the same value; result observed) | c… (contains; only where it is public)
 //!     -> ok b=<bits> items=<csv> bytes=<to_bytes> json=<to_bytes after from_json(to_json)> | err | panic
-//!   ws NOPS op*     op = vk N e* | ns N e* | bs N e* | ps N <lang>:<bytes>* | pd <a|d|i> N datum*   datum = k<int>,<orig|~>
+//!   ws NOPS op*     op = vk[@P] N e* | ns[@P] N e* | bs[@P] N e* | ps[@P] N <lang>:<bytes>* | pd[@P] <a|d|i> N datum*   datum = k<int>,<orig|~>
+//!                   P = <a|c|t|u|i|w><k>: provenance of the collection handed to the setter (see prov_of); the model only needs the elements
 //!     -> ok bytes=<to_bytes> f=<key:csv;…>   (the element encodings found under each key when the output is decoded again)
 //!   ma-api N op*    op = s <policy> <name> <qty> | i <policy> K (<name> <qty>)*
 //!   ma-wire N (<policy> K (<name> <qty>)*)*     MultiAsset::from_bytes of a map written in THIS order
@@ -326,29 +327,79 @@ fn ws_fields(ws: &TransactionWitnessSet) -> String {
     if let Some(v) = ws.plutus_data() { push(4, (0..v.len()).map(|i| hx(&v.get(i).to_bytes())).collect()); }
     if f.is_empty() { "-".into() } else { f.join(";") }
 }
+/// CBOR of a collection holding `els`: form t = tag 258 + definite array, u = plain definite array, i = tag 258 + indefinite array
+fn coll_bytes(form: char, els: &[Vec<u8>]) -> Vec<u8> {
+    let mut w = if form == 'u' { vec![] } else { head(6, 258) };
+    if form == 'i' { w.push(0x9f); } else { w.extend(head(4, els.len() as u64)); }
+    for e in els { w.extend(e); }
+    if form == 'i' { w.push(0xff); }
+    w
+}
+/// a witness set holding ONE field `key` with the given collection bytes; read back through the typed getter
+fn ws_with(key: u64, coll: Vec<u8>) -> TransactionWitnessSet {
+    let mut w = head(5, 1); w.extend(head(0, key)); w.extend(coll);
+    TransactionWitnessSet::from_bytes(w).expect("witness set bytes")
+}
+/// provenance of the collection handed to a typed setter: `a` hand-built by add, `c` hand-built then cloned,
+/// `t` / `u` / `i` decoded from tagged / untagged / indefinite bytes holding the first k elements (repeats included) and then
+/// extended by add() of the remaining ones, `w` = the same (tagged) but decoded inside another witness set and taken from ITS getter
+fn prov_of(op: &str) -> (char, usize) {
+    match op.split('@').nth(1) { None => ('a', 0), Some(x) => (x.chars().next().unwrap(), x[1..].parse().unwrap()) }
+}
 fn exec_ws(p: &mut P) -> String {
     let mut ws = TransactionWitnessSet::new();
     for _ in 0..p.count() {
-        match p.next() {
-            "vk" => { let mut v = Vkeywitnesses::new(); for _ in 0..p.count() { v.add(&Vkeywitness::from_bytes(p.bytes()).unwrap()); } ws.set_vkeys(&v); }
-            "ns" => { let mut v = NativeScripts::new(); for _ in 0..p.count() { v.add(&NativeScript::from_bytes(p.bytes()).unwrap()); } ws.set_native_scripts(&v); }
-            "bs" => { let mut v = BootstrapWitnesses::new(); for _ in 0..p.count() { v.add(&BootstrapWitness::from_bytes(p.bytes()).unwrap()); } ws.set_bootstraps(&v); }
+        let op = p.next(); let (prov, k) = prov_of(op);
+        match op.split('@').next().unwrap() {
+            "vk" => {
+                let els: Vec<Vec<u8>> = (0..p.count()).map(|_| p.bytes()).collect(); let k = k.min(els.len());
+                let mut v = match prov { 't' | 'u' | 'i' => Vkeywitnesses::from_bytes(coll_bytes(prov, &els[..k])).expect("vkeys bytes"),
+                                         'w' if k > 0 => ws_with(0, coll_bytes('t', &els[..k])).vkeys().expect("getter"), _ => Vkeywitnesses::new() };
+                let from = if matches!(prov, 't' | 'u' | 'i') || (prov == 'w' && k > 0) { k } else { 0 };
+                for e in &els[from..] { v.add(&Vkeywitness::from_bytes(e.clone()).unwrap()); }
+                if prov == 'c' { ws.set_vkeys(&v.clone()); } else { ws.set_vkeys(&v); }
+            }
+            "ns" => {
+                let els: Vec<Vec<u8>> = (0..p.count()).map(|_| p.bytes()).collect(); let k = k.min(els.len());
+                let mut v = match prov { 't' | 'u' | 'i' => NativeScripts::from_bytes(coll_bytes(prov, &els[..k])).expect("native scripts bytes"),
+                                         'w' if k > 0 => ws_with(1, coll_bytes('t', &els[..k])).native_scripts().expect("getter"), _ => NativeScripts::new() };
+                let from = if matches!(prov, 't' | 'u' | 'i') || (prov == 'w' && k > 0) { k } else { 0 };
+                for e in &els[from..] { v.add(&NativeScript::from_bytes(e.clone()).unwrap()); }
+                if prov == 'c' { ws.set_native_scripts(&v.clone()); } else { ws.set_native_scripts(&v); }
+            }
+            "bs" => {
+                let els: Vec<Vec<u8>> = (0..p.count()).map(|_| p.bytes()).collect(); let k = k.min(els.len());
+                let mut v = match prov { 't' | 'u' | 'i' => BootstrapWitnesses::from_bytes(coll_bytes(prov, &els[..k])).expect("bootstrap bytes"),
+                                         'w' if k > 0 => ws_with(2, coll_bytes('t', &els[..k])).bootstraps().expect("getter"), _ => BootstrapWitnesses::new() };
+                let from = if matches!(prov, 't' | 'u' | 'i') || (prov == 'w' && k > 0) { k } else { 0 };
+                for e in &els[from..] { v.add(&BootstrapWitness::from_bytes(e.clone()).unwrap()); }
+                if prov == 'c' { ws.set_bootstraps(&v.clone()); } else { ws.set_bootstraps(&v); }
+            }
             "ps" => {
-                let mut v = PlutusScripts::new();
-                for _ in 0..p.count() { let s = p.next(); let mut it = s.split(':'); let l: u64 = it.next().unwrap().parse().unwrap();
-                    v.add(&PlutusScript::new_with_version(unhex_or_dash(it.next().unwrap()), &lang(l))); }
-                ws.set_plutus_scripts(&v);
+                let els: Vec<(u64, Vec<u8>)> = (0..p.count()).map(|_| { let s = p.next(); let mut it = s.split(':'); let l: u64 = it.next().unwrap().parse().unwrap(); (l, unhex_or_dash(it.next().unwrap())) }).collect();
+                let k = k.min(els.len());
+                // `w`: the first k scripts arrive inside another witness set (keys 3 / 6 / 7, tagged arrays, repeats included) and are read through its getter
+                let mut v = if prov == 'w' && k > 0 {
+                    let groups: Vec<(u64, Vec<Vec<u8>>)> = [(3u64, 1u64), (6, 2), (7, 3)].iter().map(|(key, l)| (*key, els[..k].iter().filter(|e| e.0 == *l).map(|e| bstr(&e.1)).collect::<Vec<_>>())).filter(|g| !g.1.is_empty()).collect();
+                    let mut w = head(5, groups.len() as u64);
+                    for (key, g) in &groups { w.extend(head(0, *key)); w.extend(coll_bytes(if *key == 6 { 'u' } else { 't' }, g)); }
+                    TransactionWitnessSet::from_bytes(w).expect("witness set bytes").plutus_scripts().expect("getter")
+                } else { PlutusScripts::new() };
+                let from = if prov == 'w' && k > 0 { k } else { 0 };
+                for (l, b) in &els[from..] { v.add(&PlutusScript::new_with_version(b.clone(), &lang(*l))); }
+                if prov == 'c' { ws.set_plutus_scripts(&v.clone()); } else { ws.set_plutus_scripts(&v); }
             }
             "pd" => {
                 let form = p.next(); let n = p.count();
-                let ds: Vec<PlutusData> = (0..n).map(|_| datum_of(p.next())).collect();
-                let list = if form == "a" { let mut l = PlutusList::new(); for d in &ds { l.add(d); } l } else {
-                    let mut wire = if form == "d" { head(4, n as u64) } else { vec![0x9f] };
-                    for d in &ds { wire.extend(d.to_bytes()); }
-                    if form == "i" { wire.push(0xff); }
-                    PlutusList::from_bytes(wire).expect("plutus list bytes")
-                };
-                ws.set_plutus_data(&list);
+                let toks: Vec<&str> = (0..n).map(|_| p.next()).collect();
+                let ds: Vec<PlutusData> = toks.iter().map(|t| datum_of(t)).collect();
+                let (prov, k) = if op.contains('@') { (prov, k.min(n)) } else { (match form { "d" => 't', "i" => 'i', _ => 'a' }, n) };
+                let enc: Vec<Vec<u8>> = ds[..k].iter().map(|d| d.to_bytes()).collect();
+                let mut list = match prov { 't' | 'u' | 'i' => PlutusList::from_bytes(coll_bytes(prov, &enc)).expect("plutus list bytes"),
+                                            'w' if k > 0 => ws_with(4, coll_bytes('t', &enc)).plutus_data().expect("getter"), _ => PlutusList::new() };
+                let from = if matches!(prov, 't' | 'u' | 'i') || (prov == 'w' && k > 0) { k } else { 0 };
+                for d in &ds[from..] { list.add(d); }
+                if prov == 'c' { ws.set_plutus_data(&list.clone()); } else { ws.set_plutus_data(&list); }
             }
             x => panic!("ws op {}", x),
         }
@@ -669,14 +720,23 @@ fn gen_ws(r: &mut Rng, out: &mut Out, thorough: bool) {
         let nops = r.range(1, 4) as usize; let mut line = format!("ws {}", nops);
         for _ in 0..nops {
             let n = r.below(6) as usize;
+            // provenance of the collection: hand-built / cloned / decoded (tagged, untagged, indefinite; repeats in the bytes) and extended
+            // by add / taken from another witness set's getter; k = how many leading elements are in the decoded bytes
+            let prov = *r.pick(&['a', 'c', 't', 't', 'u', 'i', 'w', 'w']); let k = if r.chance(1, 2) { n } else { r.below(n as u64 + 1) as usize };
             match r.below(8) {
-                0 => { let ids = pool_ids(r, 3); line += &format!(" vk {}", n); for _ in 0..n { line += &format!(" {}", hx(&element(5, *r.pick(&ids)))); } }
-                1 => { let ids = pool_ids(r, 3); line += &format!(" bs {}", n); for _ in 0..n { line += &format!(" {}", hx(&element(6, *r.pick(&ids)))); } }
-                2 | 3 => { line += &format!(" ns {}", n); for _ in 0..n { line += &format!(" {}", hx(&native_script(r.below(4)).to_bytes())); } }
-                4 | 5 => { line += &format!(" ps {}", n); for _ in 0..n { line += &format!(" {}:{}", r.range(1, 3), hx(&fill(r.below(3), 40, 6))); } }
+                0 => { let ids = pool_ids(r, 3); line += &format!(" vk@{}{} {}", prov, k, n); for _ in 0..n { line += &format!(" {}", hx(&element(5, *r.pick(&ids)))); } }
+                1 => { let ids = pool_ids(r, 3); line += &format!(" bs@{}{} {}", prov, k, n); for _ in 0..n { line += &format!(" {}", hx(&element(6, *r.pick(&ids)))); } }
+                2 | 3 => { line += &format!(" ns@{}{} {}", prov, k, n); for _ in 0..n { line += &format!(" {}", hx(&native_script(r.below(4)).to_bytes())); } }
+                4 | 5 => { let prov = if matches!(prov, 't' | 'u' | 'i') { 'w' } else { prov };
+                           line += &format!(" ps@{}{} {}", prov, k, n); for _ in 0..n { line += &format!(" {}:{}", r.range(1, 3), hx(&fill(r.below(3), 40, 6))); } }
                 _ => {
-                    let form = *r.pick(&["a", "a", "d", "i"]); line += &format!(" pd {} {}", form, n);
-                    for _ in 0..n { let mut d = gen_datum(r); if form != "a" && d.ends_with("~") { let k = d[1..].split(',').next().unwrap().parse::<u64>().unwrap(); d = format!("k{},{}", k, hx(&head(0, k))); } line += &format!(" {}", d); }
+                    let decoded = matches!(prov, 't' | 'u' | 'i') || (prov == 'w' && k > 0);
+                    // the encoding flag survives only while nothing is added after decoding
+                    let form = if decoded && k == n { if prov == 'i' { "i" } else { "d" } } else { "a" };
+                    line += &format!(" pd@{}{} {} {}", prov, k, form, n);
+                    for j in 0..n { let mut d = gen_datum(r);
+                        if decoded && j < k && d.ends_with("~") { let v = d[1..].split(',').next().unwrap().parse::<u64>().unwrap(); d = format!("k{},{}", v, hx(&head(0, v))); }
+                        line += &format!(" {}", d); }
                 }
             }
         }
